@@ -31,7 +31,7 @@ from harness.planners import ilp
 NAME = "ilpbatch"
 PROPS = {"C10", "C11", "C12"}
 SUITE = "mip_ilp_batch"
-USE_LEAN = False  # set when Driver/MipIlpBatch.lean is linked into the driver
+USE_LEAN = True
 
 _t = ilp._t
 
@@ -419,6 +419,49 @@ def corpus() -> list[dict]:
             "uuid_seed": 18,
         }
     )
+    # C10-ILPB-5 / C11-ILPB-2: T0 -> T1 -> T2, T1 alone in a profile that needs two tasks (joins no
+    # BatchTask); T0 and T2 get no precedence rows and `Overlap = 0`: both must start at 1 on one CPU
+    pr = {"A": [st(1, 1, 1)], "B": [st(3, 2, 1)]}
+    out.append(
+        {
+            "now": 0,
+            "pools": one_pool(1),
+            "profiles": pr,
+            "graphs": [
+                {
+                    "name": "G0",
+                    "tasks": [task("T0", "RELEASED", "A", pr, 2), task("T1", "VIRTUAL", "B", pr, 20, release=None), task("T2", "VIRTUAL", "A", pr, 2, release=None)],
+                    "edges": [[0, 1], [1, 2]],
+                }
+            ],
+            "flags": dict(flags, lookahead=30),
+            "allowed0": [],
+            "uuid_seed": 19,
+        }
+    )
+    # C10-ILPB-6: retracting mode, the re-offered SCHEDULED parent joins no BatchTask and keeps its
+    # placement [5, 7) with 1 of 2 CPUs; its child needs both CPUs and must start by 2
+    pr = {"A": [st(2, 2, 1)], "B": [st(5, 1, 2)]}
+    out.append(
+        {
+            "now": 0,
+            "pools": one_pool(2),
+            "profiles": pr,
+            "graphs": [
+                {
+                    "name": "G0",
+                    "tasks": [
+                        task("T0", "SCHEDULED", "A", pr, 30, release=0, prev={"w": 0, "s": 0, "time": 5, "sched_at": 0, "batch": 1}),
+                        task("T1", "VIRTUAL", "B", pr, 7, release=None),
+                    ],
+                    "edges": [[0, 1]],
+                }
+            ],
+            "flags": dict(flags, retract=True, release_taskgraphs=True, lookahead=30),
+            "allowed0": [],
+            "uuid_seed": 20,
+        }
+    )
     return out
 
 
@@ -547,11 +590,50 @@ def oracle_c10(w, rec) -> list[str]:
     return ilp.oracle_c10(w, rec)
 
 
+def _ancestors(g, t):
+    seen, todo, out = set(), list(g.get_parents(t)), []
+    while todo:
+        a = todo.pop()
+        if id(a) in seen:
+            continue
+        seen.add(id(a))
+        out.append(a)
+        todo.extend(g.get_parents(a))
+    return out
+
+
+def oracle_c11(w, rec) -> list[str]:
+    """The clauses of `ilp.oracle_c11` plus two that only matter when an offered task can be left
+    without any decision (batching): a placed child whose offered parent got no decision, and a
+    placed task that starts before a (transitive) ancestor placed in the same call finishes."""
+    bad = ilp.oracle_c11(w, rec)
+    if rec["err"]:
+        return bad
+    decided = {p.task.unique_name: p for p in rec["placements"]}
+    offered = {t.unique_name for t in rec.get("offered", [])}
+    for p in rec["placements"]:
+        if not p.is_placed():
+            continue
+        c = p.task
+        g = w.workload.get_task_graph(c.task_graph)
+        parents = list(g.get_parents(c))
+        for par in parents:
+            if par.unique_name in offered and par.unique_name not in decided and par.state.name not in ("SCHEDULED", "RUNNING"):
+                bad.append("child placed while a parent offered in the same call got no decision")
+        for a in _ancestors(g, c):
+            if any(a is q for q in parents):
+                continue
+            pa = decided.get(a.unique_name)
+            if pa is not None and pa.is_placed() and _t(p.placement_time) < _t(pa.placement_time) + _t(pa.execution_strategy.runtime):
+                bad.append("task starts before an ancestor placed in the same call finishes")
+    return sorted(set(bad))
+
+
 def oracle_for(prop, w, rec) -> list[str]:
     if prop == "C10":
         return oracle_c10(w, rec)
     if prop == "C11":
-        return ilp.oracle_c11(w, rec)
+        return oracle_c11(w, rec)
     if prop == "C12":
         return ilp.oracle_c12(w, rec)
     return []
@@ -566,17 +648,38 @@ def classify(prop, w, rec, what: str) -> str:
     BatchStrategy = R["BatchStrategy"]
     decided = {p.task.unique_name: p for p in (rec["placements"] or [])}
     if prop == "C10" and what == "capacity exceeded at a planned instant":
-        # explained iff the decisions alone (without the RUNNING work the model does not see) fit
-        saved = rec["placements"]
-        running = [t for _, t in w.task_list if t.state.name == "RUNNING"]
-        if running and _capacity_ok_without_running(w, rec):
+        # explained iff the plan fits once the work the model does not charge is left out: RUNNING
+        # batches (class 1), dependent tasks placed at overlapping times, which get `Overlap = 0` (class 5)
+        running = {id(t) for _, t in w.task_list if t.state.name == "RUNNING"}
+        if running and _capacity_ok_without(w, rec, running):
             return f"ilp C10: {PREFIX}{what}: the decisions fit without the RUNNING batches, which hold no capacity in the model"
+        dep = _overlapping_dependent_tasks(w, rec)
+        if dep and _capacity_ok_without(w, rec, running | dep):
+            return f"ilp C10: {PREFIX}{what}: dependent tasks that no precedence row separates run at the same time and are exempt from the overlap / capacity rows"
+        # class 6: retracting mode, a re-offered SCHEDULED task that joined no BatchTask keeps its old placement
+        kept = {
+            id(t)
+            for t in rec.get("offered", [])
+            if t.state.name == "SCHEDULED" and t.unique_name not in decided and _unbatchable(w, rec, t)
+        }
+        if kept and _capacity_ok_without(w, rec, running | dep | kept):
+            return f"ilp C10: {PREFIX}{what}: a re-offered SCHEDULED task that joined no BatchTask keeps its earlier placement, which the model does not see"
     if prop == "C10" and what == "offered task without decision":
         unanswered = [t for t in rec.get("offered", []) if t.state.name != "SCHEDULED" and t.unique_name not in decided]
         if unanswered and all(_unbatchable(w, rec, t) for t in unanswered):
             return f"ilp C10: {PREFIX}{what}: the task joined no BatchTask (no strategy meets the deadline from now, or fewer tasks than the batch size are left behind it in deadline order)"
     if prop == "C11" and what == "child starts before the expected finish of a RUNNING parent":
         return f"ilp C11: {PREFIX}{what}: a RUNNING BatchTask contributes runtime 0 to the precedence rows"
+    if prop == "C11" and what in ("child placed while a parent offered in the same call got no decision", "task starts before an ancestor placed in the same call finishes"):
+        # explained iff every such pair is separated by an offered task that joined no BatchTask
+        offered = [t for t in rec.get("offered", []) if t.state.name not in ("SCHEDULED", "RUNNING") and t.unique_name not in decided]
+        ok = bool(offered) and all(_unbatchable(w, rec, t) for t in offered)
+        if ok:
+            return f"ilp C11: {PREFIX}{what}: a parent that joined no BatchTask has no variables, so the child's BatchTask gets no precedence rows for it"
+    if prop == "C11" and what == "child starts before the expected finish of a SCHEDULED parent" and f["retract"]:
+        kept = [t for t in rec.get("offered", []) if t.state.name == "SCHEDULED" and t.unique_name not in decided]
+        if kept and all(_unbatchable(w, rec, t) for t in kept):
+            return f"ilp C11: {PREFIX}{what}: a parent that joined no BatchTask has no variables, so the child's BatchTask gets no precedence rows for it"
     if prop == "C12" and what == "placed task would finish after its deadline":
         ok = True
         allowed = set(rec.get("allowed_after", []))
@@ -627,8 +730,25 @@ def _unbatchable(w, rec, t) -> bool:
     return False
 
 
-def _capacity_ok_without_running(w, rec) -> bool:
-    iv = [x for x in ilp._intervals(w, rec) if not (x[0].state.name == "RUNNING")]
+def _overlapping_dependent_tasks(w, rec) -> set:
+    """ids of the tasks placed by this call that run at the same time as a dependent (ancestor /
+    descendant) task also placed by this call - in one batch or in two."""
+    pl = [p for p in rec["placements"] or [] if p.is_placed()]
+    out = set()
+    for i, p in enumerate(pl):
+        for q in pl[i + 1 :]:
+            a, b = p.task, q.task
+            if a.task_graph != b.task_graph or not w.workload.get_task_graph(a.task_graph).are_dependent(a, b):
+                continue
+            s1, e1 = _t(p.placement_time), _t(p.placement_time) + _t(p.execution_strategy.runtime)
+            s2, e2 = _t(q.placement_time), _t(q.placement_time) + _t(q.execution_strategy.runtime)
+            if s1 < e2 and s2 < e1:
+                out |= {id(a), id(b)}
+    return out
+
+
+def _capacity_ok_without(w, rec, excluded: set) -> bool:
+    iv = [x for x in ilp._intervals(w, rec) if id(x[0]) not in excluded]
     BatchStrategy = ilp._repo()["BatchStrategy"]
     cap = {}
     for wk, pool in w.workers:
